@@ -2324,6 +2324,23 @@ impl WorldlineRuntime {
             touched_worldlines.insert(entry.worldline_id);
             recovered_global_tick = recovered_global_tick.max(entry.commit_global_tick);
         }
+        // Frontiers are rebuilt from the whole retained history of every touched worldline,
+        // so the transported entries must cover that history exactly: a dropped or repeated
+        // entry would otherwise understate the recovered runtime clock.
+        for worldline_id in &touched_worldlines {
+            let covered = entries
+                .iter()
+                .filter(|entry| entry.worldline_id == *worldline_id)
+                .map(|entry| entry.worldline_tick)
+                .collect::<BTreeSet<_>>()
+                .len() as u64;
+            if covered != provenance.len(*worldline_id)? {
+                let tip = provenance
+                    .tip_ref(*worldline_id)?
+                    .map_or([0u8; 32], |tip| tip.commit_hash);
+                return Err(RuntimeError::ReceiptCorrelationReplayMismatch(tip));
+            }
+        }
 
         for worldline_id in touched_worldlines {
             let base_state = restored
